@@ -160,8 +160,8 @@ func throughNewHelper(v ssa.Value) ssa.Value {
 		if !ok {
 			return nil
 		}
-		if isErrorType(x.Type()) {
-			return nil // error results stay attached to their call: guard facts are keyed by it
+		if isErrorType(x.Type()) || isBoolType(x.Type()) {
+			return nil // error / boolean results stay attached to their call: guard facts are keyed by it
 		}
 		if r := singleSuccessReturn(c.Call.StaticCallee()); r != nil && x.Index < len(r.Results) {
 			return r.Results[x.Index]
